@@ -298,6 +298,26 @@ func C15(c *Ctx) {
 			r.Check("C15-3", sprintf("%s:return%d:nil-after-generate", ck, i+1), c.InstrPos(ret), last.Is("const", "nil"), "the run can end in an error after the output was written: "+last.String())
 		}
 		r.Check("C15-3", ck+":has-success-return", c.Pos(cs.Pos()), m >= 1, "no success return after the writing function")
+		// a deferred function that can set the error result runs after the write: it could fail the run with the output already replaced
+		for _, b := range cs.Fn.Blocks {
+			for _, in := range b.Instrs {
+				df, ok := in.(*ssa.Defer)
+				if !ok {
+					continue
+				}
+				mc, isMC := df.Call.Value.(*ssa.MakeClosure)
+				if !isMC {
+					continue
+				}
+				for _, bnd := range mc.Bindings {
+					if a, isA := bnd.(*ssa.Alloc); isA && core.ClosureStores(mc, a) {
+						if pt, isP := a.Type().Underlying().(*types.Pointer); isP && pt.Elem().String() == "error" {
+							r.Check("C15-3", ck+":deferred-error:"+a.Comment, c.InstrPos(df), false, "a deferred function can assign the error result "+a.Comment+" after the output was written: the run would end in an error with the output path already replaced")
+						}
+					}
+				}
+			}
+		}
 		// no other effectful call after it
 		for _, b := range cs.Fn.Blocks {
 			for _, in := range b.Instrs {
